@@ -34,6 +34,7 @@ RULE += (
          'among the enumerated blocks. ')
 RULE += ("Round 8: templates that render themselves from inside every binding block and try form until the interpreter's recursion limit (8 alignments) is reached. ")
 RULE += ('Round 9: one compiled block tag active twice at a time over different kinds of data. ')
+RULE += ('Round 10: mixed sequences among the blocks; tree sub-documents that are absent or None. ')
 ASSUMPTIONS = [
     'faults are exceptions / dtml-return raised by namespace values (the '
     'quantifier of the property); RecursionError from exhausting the '
